@@ -45,6 +45,8 @@ def run(res):
                 res.violation("binding-map writer text differs from the Coq model: impl=%s model=%s" % (
                     dec(i.split("|")[0])[:300], dec(m.split("|")[0])[:300]), {"case": c.split("\t"), "impl": i, "model": m}, no_input=True)
     # 2. behaviour of the advertised updaters
+    found_analysis = found
+    found = 0
     results = behave.get_results(res.tier, res.seed, "behave")
     jobs = []
     meta = []
@@ -90,6 +92,9 @@ def run(res):
                                "after_bmap": a["trees"][1], "fresh": b["trees"][0]})
     if not ok:
         res.violation(what, {"obligation": "Properties/C07.v"}, no_input=(found == 0))
+    if found > 0:
+        for v in res.violations:
+            v["no_input"] = False
     res.cov["evaluations"] = r["n"] + n_eval
     res.cov["distinct_nontrivial"] = nontrivial
     res.cov["rule"] = ("analysis: generated templates (nested if/for/template/slot/include, colliding names) dumped from the "
